@@ -27,6 +27,9 @@ def parseKind (s : String) : Kind :=
   | "response" => .response | "schema" => .schema | "securityScheme" => .securityScheme
   | "example" => .example | "callback" => .callback | "link" => .link | _ => .pathItem
 
+def allKinds : List Kind :=
+  [.header, .parameter, .requestBody, .response, .schema, .securityScheme, .example, .callback, .link, .pathItem]
+
 def parseRef (j : Json) : Ref :=
   let text := getStr j "t"
   let frag := getStr j "f"
@@ -57,7 +60,14 @@ def parseFile (j : Json) : File :=
   let elem := (getArr j "elem").map parseNode
   let extra := (getArr j "extra").map parseNode
   let nodes := Std.HashMap.ofList ((tops ++ elem ++ extra).flatMap flatten)
-  ⟨getBool j "parses", tops, elem, parseTable nodes (getArr j "typed"), parseTable nodes (getArr j "raw")⟩
+  -- "elems": [[kind, [nodes]], …] — the file as the resolver of each kind sees it; absent in old replay files,
+  -- where the one view "elem" stands for every kind
+  let elems : List (Kind × List Node) :=
+    if isNull j "elems" then allKinds.map (fun k => (k, elem))
+    else (getArr j "elems").filterMap (fun e => match asArr e with
+      | [k, ns] => some (parseKind (asStr k), (asArr ns).map parseNode)
+      | _ => none)
+  ⟨getBool j "parses", tops, elems, parseTable nodes (getArr j "typed"), parseTable nodes (getArr j "raw"), getBool j "conflict", getBool j "emptyPI"⟩
 
 def parseInput (j : Json) : Input :=
   { allowed := getBool j "allowed"
@@ -72,7 +82,8 @@ def branchName (n : Nat) : String :=
   | 1 => "value.set" | 2 => "ref.inprogress" | 3 => "guard.deny" | 4 => "read.whole" | 5 => "read.fragment"
   | 6 => "doc.cached" | 7 => "drill.typed" | 8 => "reread.ok" | 9 => "drill.kindmismatch" | 10 => "pathitem.fragment"
   | 11 => "backtrack.fired" | 12 => "read.miss" | 13 => "parse.fail" | 14 => "fragment.bad" | 16 => "value.nil"
-  | 17 => "drill.fail.nopath" | 18 => "reread.fail" | _ => s!"b{n}"
+  | 17 => "drill.fail.nopath" | 18 => "reread.fail" | 19 => "pathitem.chain.nil" | 20 => "pathitem.chain"
+  | 21 => "backtrack.otherkind" | 22 => "parameter.schema+content" | 23 => "pathitem.emptyfile" | _ => s!"b{n}"
 
 def fuel : Nat := 4000
 
@@ -85,15 +96,18 @@ def handle (j : Json) : Json :=
   let branches := tr.map branchName ++
     (if st.foreign then ["foreign.base"] else []) ++
     (if st.log.length > 2 then ["reads.many"] else []) ++
-    (if inp.allowed then ["switch.on"] else [])
+    (if (cacheFilter inp [] st.log).length < st.log.length then ["cache.hit"] else []) ++
+    (if inp.allowed then ["switch.on"] else []) ++
+    (if decide (Uniform inp) then ["universe.uniform"] else [])
   -- candidate documents of the spec: the root and every stored location
   let cands : List (Option Url) := inp.root :: inp.store.map (fun e => some e.1)
   let edges := specEdges inp cands
   jobj [
-    ("model", jobj [("log", jstrs (st.log.map renderUrl)), ("ok", Json.bool ok), ("oof", Json.bool st.oof)]),
+    ("model", jobj [("log", jstrs (st.log.map renderUrl)), ("ok", Json.bool ok), ("oof", Json.bool st.oof),
+                    ("cacheLog", jstrs ((cacheFilter inp [] st.log).map renderUrl))]),
     ("spec", jobj [("allowed", Json.bool inp.allowed), ("root", optUrl inp.root),
                    ("edges", Json.arr (edges.map (fun e => Json.arr #[optUrl e.1, Json.str (renderUrl e.2)])).toArray),
-                   ("modelOK", Json.bool (specB inp st.log))]),
+                   ("modelOK", Json.bool (specB inp st.log)), ("uniform", Json.bool (decide (Uniform inp)))]),
     ("excl", jstrs (if st.foreign then ["ForeignBase"] else [])),
     ("branches", jstrs branches)]
 
